@@ -259,6 +259,9 @@ class Prov:
             if e.id in self.func.all_params:
                 # reassigned parameter (types = ensure_list(types)): the value is the parameter, possibly wrapped
                 return ("param", e.id)
+            if len(vals) > 1 and all(isinstance(v, ast.Constant) for v in vals):
+                # a local that only ever holds constants (branch = "then" / branch = "else"): one term for the local
+                return ("constlocal", e.id, tuple(sorted(str(v.value) for v in vals)))
             if len(vals) == 1:
                 v = vals[0]
                 if isinstance(v, tuple) and v[0] == "unpack":
@@ -318,6 +321,8 @@ def show(t):
         return "len(%s)" % show(t[1])
     if k == "tuple":
         return "(%s)" % ", ".join(show(x) for x in t[1])
+    if k == "constlocal":
+        return "%s in %s" % (t[1], list(t[2]))
     if k == "opaque":
         return "<%s>" % t[1]
     return str(t)
